@@ -179,6 +179,19 @@ Proof.
 Qed.
 Print Assumptions template_lexing_total.
 
+(* ---- the bits of a component tag: TagFormatter.parse (tag_formatter.py), which runs before parse_tag in the tag function ---- *)
+(* ComponentFormatter.parse on the non-empty bit list of a tag: a component name and fewer bits than it was given, or
+   TemplateSyntaxError.  Its tests are plain string primitives (`=` in the first bit, startswith name=, quotes at both ends),
+   one pass over the bits: nothing here can take more than linear time - a regex in this place is outside the model. *)
+Theorem component_formatter_total : forall tokens : list str, tokens <> [] ->
+  match component_formatter_parse tokens with
+  | Ok (_, final) => length final < length tokens
+  | Err k => k = TemplateSyntaxError
+  | OutOfFuel => False
+  end.
+Proof. exact component_formatter_total_lemma. Qed.
+Print Assumptions component_formatter_total.
+
 (* ---- non-vacuity ---- *)
 Example parse_ok_example :
   exists a, parse_tag (s2n "component 'x' a=[1, *b] {""k"": v|f:2} ...d /"%string) = Ok (s2n "component 'x' a=[1, *b] {""k"": v|f:2} ...d /"%string, a)
@@ -216,4 +229,8 @@ Proof. split; vm_compute; reflexivity. Qed.
 Example template_example :
   template_obs true (s2n "a{% component ""x %} y"" %}b{{ v }}"%string) = Some (TToks 4 33)
   /\ template_obs true (s2n "{% slot 'a %}"%string) = Some (TErrString 39).
+Proof. split; vm_compute; reflexivity. Qed.
+Example formatter_example :
+  component_formatter_parse [s2n "component"%string; s2n "a=1"%string; s2n "name='x'"%string] = Ok (s2n "x"%string, [s2n "a=1"%string])
+  /\ component_formatter_parse [s2n "component"%string; s2n "aaaaaaaaaaaaaaaaaaaaaaaa"%string] = Err TemplateSyntaxError.
 Proof. split; vm_compute; reflexivity. Qed.
